@@ -21,6 +21,9 @@ def fixed_bodies():
     for br in ("CALL", "JMP", "JNZ"):
         out.append([("label", "target"), ("op", "RET"), ("mn", "MOV", [A.ident("BX"), A.ident("target")]), ("mn", "RESB", [A.num(40000)]), ("label", "caller"),
                     ("mn", br, [A.ident("target")]), ("mn", "DW", [A.ident("target"), A.ident("caller")])])
+    # bracket directives in the middle of a body must not touch the location counter (ORG is recorded in two places)
+    out.append(b1[:3] + [("config", "SECTION", ("id", ".text"))] + b1[3:])
+    out.append([("config", "SECTION", ("id", ".data"))] + b1[:6] + [("config", "INSTRSET", ("str", b"i486p")), ("config", "SECTION", ("id", ".text"))] + b1[6:])
     out.append([("mn", "DB", [A.num(9)]), ("label", "a"), ("mn", "DW", [A.ident("a")]), ("label", "b"), ("mn", "DD", [A.ident("b"), A.ident("a"), A.ident("$")]), ("mn", "JNZ", [A.ident("a")])])
     return out
 
